@@ -476,11 +476,120 @@ wait:
 	st.count("restart_overlap", fmt.Sprintf("%s:overlap-observed=%v", name, max > int64(bound)))
 }
 
+// ---- scenario E: stale worker. WorkerLimit 1; a gate job keeps the worker of run 1 busy across Stop(); Start(); the worker of
+// run 2 is kept busy by a second gate, so that the loop of run 2 sits in its hand-off with a due job when the stale worker
+// of run 1 comes back. Every job dispatched by run 2 must see a LIVE context at the start of Execute and get its retries
+// (MaxRetries 3 on an always-failing job = 4 attempts). With a hand-off channel shared by all runs the stale worker took
+// the job about every second time and ran it with the cancelled context of run 1 (one attempt, no retry).
+func poolStaleWorker(trials int, st *poolStats) {
+	name := "stale-worker"
+	staleCtx, fewAttempts, ok := 0, 0, 0
+	for t := 0; t < trials; t++ {
+		s, err := quartz.NewStdScheduler(quartz.WithWorkerLimit(1), quartz.WithOutdatedThreshold(time.Hour))
+		must(err)
+		mkGate := func(nm string) (*poolJob, chan struct{}, chan struct{}) {
+			entered, release := make(chan struct{}), make(chan struct{})
+			var once sync.Once
+			return &poolJob{name: nm, run: func(ctx context.Context) error {
+				once.Do(func() { close(entered) })
+				<-release // ignores ctx on purpose
+				return nil
+			}}, entered, release
+		}
+		waitFor := func(ch chan struct{}, what string) bool {
+			select {
+			case <-ch:
+				return true
+			case <-time.After(10 * time.Second):
+				st.failures = append(st.failures, fmt.Sprintf("%s: %s not reached within 10 s (trial %d)", name, what, t))
+				return false
+			}
+		}
+		g1, in1, rel1 := mkGate("gate1")
+		must(s.ScheduleJob(quartz.NewJobDetail(g1, quartz.NewJobKey("gate1")), quartz.NewRunOnceTrigger(time.Millisecond)))
+		ctx1, cancel1 := context.WithCancel(context.Background())
+		s.Start(ctx1)
+		good := waitFor(in1, "gate of the first run")
+		s.Stop()
+		ctx2, cancel2 := context.WithCancel(context.Background())
+		s.Start(ctx2)
+		g2, in2, rel2 := mkGate("gate2")
+		must(s.ScheduleJob(quartz.NewJobDetail(g2, quartz.NewJobKey("gate2")), quartz.NewRunOnceTrigger(time.Millisecond)))
+		good = good && waitFor(in2, "gate of the second run")
+		// the always-failing job of the second run
+		var attempts atomic.Int64
+		var firstErr atomic.Value
+		fail := &poolJob{name: "failing", run: func(ctx context.Context) error {
+			if attempts.Add(1) == 1 {
+				if e := ctx.Err(); e != nil {
+					firstErr.Store(e.Error())
+				} else {
+					firstErr.Store("")
+				}
+			}
+			return fmt.Errorf("always fails")
+		}}
+		opts := quartz.NewDefaultJobDetailOptions()
+		opts.MaxRetries, opts.RetryInterval = 3, time.Millisecond
+		must(s.ScheduleJob(quartz.NewJobDetailWithOptions(fail, quartz.NewJobKey("failing"), opts), quartz.NewRunOnceTrigger(time.Millisecond)))
+		time.Sleep(25 * time.Millisecond) // the loop of the second run fetches it and waits in its hand-off (its worker is in gate2)
+		close(rel1)                       // the stale worker of the first run comes back: its ctx is done AND (shared channel) a job is offered
+		time.Sleep(15 * time.Millisecond)
+		close(rel2) // the worker of the second run becomes free
+		deadline := time.Now().Add(5 * time.Second)
+		for attempts.Load() < 4 && time.Now().Before(deadline) {
+			if attempts.Load() >= 1 {
+				if fe, _ := firstErr.Load().(string); fe != "" {
+					break // executed with a dead context: there will be no retries, do not wait 5 s
+				}
+			}
+			time.Sleep(time.Millisecond)
+		}
+		if attempts.Load() >= 1 && attempts.Load() < 4 {
+			if fe, _ := firstErr.Load().(string); fe != "" {
+				time.Sleep(20 * time.Millisecond)
+			}
+		}
+		n := attempts.Load()
+		fe, _ := firstErr.Load().(string)
+		switch {
+		case !good:
+		case n >= 1 && fe != "":
+			staleCtx++
+			if staleCtx <= 3 {
+				st.violation("stale worker: WorkerLimit 1, Stop(); Start() while the worker of the first run was busy: a job dispatched by the NEW run started Execute with a dead context (%s) "+
+					"and got %d of 4 attempts (MaxRetries 3) — it was taken by the worker of the stopped run (trial %d)", fe, n, t)
+			}
+		case n < 4:
+			fewAttempts++
+			if fewAttempts <= 3 {
+				st.violation("stale worker: WorkerLimit 1, Stop(); Start() while the worker of the first run was busy: an always-failing job of the NEW run with MaxRetries 3 got %d of 4 attempts within 5 s (trial %d)", n, t)
+			}
+		default:
+			ok++
+		}
+		cancel1()
+		if !poolShutdown(s, cancel2) {
+			st.failures = append(st.failures, name+": Wait did not return within 10 s after Stop")
+		}
+		st.mu.Lock()
+		st.evals += int(n) + 2
+		st.mu.Unlock()
+	}
+	st.mu.Lock()
+	st.shapes[name] = true
+	st.samples = append(st.samples, map[string]any{"scenario": name, "trials": trials, "live_context_and_4_attempts": ok, "executed_with_dead_context": staleCtx, "fewer_than_4_attempts": fewAttempts})
+	st.mu.Unlock()
+	st.count("scenario", name)
+	st.count("stale_worker", fmt.Sprintf("ok=%d/%d", ok, trials))
+}
+
 func poolRun(args []string) int {
 	fs := flag.NewFlagSet("pool", flag.ExitOnError)
 	seed := fs.Int64("seed", 1, "")
 	rounds := fs.Int("n", 2, "rounds of the scenario set")
 	out := fs.String("out", "", "")
+	stale := fs.Int("stale", 30, "trials of the stale-worker scenario")
 	fs.Parse(args)
 	r := rand.New(rand.NewSource(*seed))
 	st := &poolStats{shapes: map[string]bool{}, dist: map[string]map[string]int{}}
@@ -503,6 +612,7 @@ func poolRun(args []string) int {
 		if k == 0 {
 			poolRestartOverlap(r, 0, st)
 			poolRestartOverlap(r, 2, st)
+			poolStaleWorker(*stale, st)
 		}
 	}
 	leftover := 0
@@ -520,7 +630,7 @@ func poolRun(args []string) int {
 		"distribution": st.dist, "violations": viol, "samples": st.samples, "harness_failures": st.failures,
 		"leftover_quartz_goroutines": leftover, "wall_ms": time.Since(t0).Milliseconds()})
 	fmt.Printf("pool: %d executions observed in %d scenario runs (%d distinct), %d property violations, %d harness failures, %d ms\n",
-		st.evals, *rounds*7+2, len(st.shapes), len(viol), len(st.failures), time.Since(t0).Milliseconds())
+		st.evals, *rounds*7+3, len(st.shapes), len(viol), len(st.failures), time.Since(t0).Milliseconds())
 	if len(st.failures) > 0 {
 		fmt.Println("pool: harness failures:", st.failures)
 		return 4
